@@ -50,8 +50,23 @@ EscMeaning(b) ==
   LET n == Len(b) IN
   EscDispatch([state |-> "Ground", params |-> <<<<0>>>>, inter |-> IF n > 1 THEN b[n - 1] ELSE -1], b[n])
 
+(* C20: a control string - OSC, DCS, SOS, PM or APC introducer (7- or 8-bit), any  *)
+(* payload without CAN / SUB / ESC / C1 (and without BEL for OSC), terminated by    *)
+(* ST (7- or 8-bit) or, for OSC, BEL - means nothing at all.                        *)
+StringIntro(s) ==      \* -> <<length of the introducer, is OSC>>, or <<0, FALSE>>
+  IF Len(s) >= 1 /\ s[1] \in {157, 144, 152, 158, 159} THEN <<1, s[1] = 157>>
+  ELSE IF Len(s) >= 2 /\ s[1] = 27 /\ s[2] \in {93, 80, 88, 94, 95} THEN <<2, s[2] = 93>>
+  ELSE <<0, FALSE>>
+IsStringToken(s) ==
+  LET si == StringIntro(s)  k == si[1]  osc == si[2]  n == Len(s)
+      tlen == IF n >= k + 2 /\ s[n - 1] = 27 /\ s[n] = 92 THEN 2
+              ELSE IF n >= k + 1 /\ (s[n] = 156 \/ (osc /\ s[n] = 7)) THEN 1 ELSE 0
+  IN /\ k > 0 /\ tlen > 0
+     /\ \A i \in (k + 1)..(n - tlen) : s[i] \notin {24, 26, 27} /\ ~(s[i] \in 128..159) /\ ~(osc /\ s[i] = 7)
+
 (* a token = introducer + body, fed to a parser in ANY state                      *)
 TokenMeaning(s) ==
+  IF IsStringToken(s) THEN [known |-> TRUE, fn |-> None] ELSE
   IF Len(s) >= 2 /\ s[1] = 155 /\ IsCsiBody(Tail(s)) THEN [known |-> TRUE, fn |-> CsiMeaning(Tail(s))]
   ELSE IF Len(s) >= 3 /\ s[1] = 27 /\ s[2] = 91 /\ IsCsiBody(SubSeq(s, 3, Len(s))) THEN [known |-> TRUE, fn |-> CsiMeaning(SubSeq(s, 3, Len(s)))]
   ELSE IF Len(s) >= 2 /\ s[1] = 27 /\ IsEscBody(Tail(s)) THEN [known |-> TRUE, fn |-> EscMeaning(Tail(s))]
